@@ -343,7 +343,7 @@ class Gen:
 
     SCENARIOS = ["diamond", "captured", "chain", "sites", "zipmap", "nestedzip", "sharedlit", "matrix",
                  "ntupleidx", "objkeys", "zipsizes", "arraynewmix", "samelit", "failedcompile", "triangle", "kwcall", "closureloop", "litfold", "paramzip", "objorder",
-                 "mapinner", "badret", "nestedparam", "twoarrparams", "matrices", "nestedacc", "zerolit"]
+                 "mapinner", "badret", "nestedparam", "twoarrparams", "matrices", "nestedacc", "zerolit", "outparties"]
 
     def scenario(self, k=None):
         rng = self.rng
@@ -397,6 +397,36 @@ class Gen:
                     self.do({"op": "arrayOf", "r": a, "size": 3})
                     arr = self.last()
                     self.do({"op": "map", "a": arr, "f": f})
+            return None
+        if k == "outparties":
+            # parties that only receive outputs (two or three of them), one of which also owns an input that is referenced
+            # only from inside a function body; the same value is sent to several of them
+            recv = []
+            for i in range(rng.choice([2, 3])):
+                self.do({"op": "party", "name": f"Recv{i}"})
+                recv.append(self.last())
+            owner = rng.choice(recv)
+            cap = self.new_input(T, party=owner)
+
+            def body(ps, cap=cap):
+                self.do({"op": "bin", "bop": op(), "a": ps[0], "b": cap})
+                return self.last()
+            f = fn1(body)
+            if f is None:
+                return None
+            a = self.new_input(T)
+            self.do({"op": "arrayOf", "r": a, "size": rng.choice([2, 3])})
+            self.do({"op": "map", "a": self.last(), "f": f})
+            mapped = self.last()
+            if self.m.regs[mapped] is DEAD:
+                return None
+            b = self.new_input(T)
+            outs = [[mapped, "out0", recv[0]], [b, "out1", recv[1]]]
+            if len(recv) > 2:
+                outs.append([mapped, "out2", recv[2]])
+            rng.shuffle(outs)
+            self.dist["compile"] = self.dist.get("compile", 0) + 1
+            self.m.compile(outs)
             return None
         if k == "captured":
             # an input that is referenced only from inside a function body, owned by its own party
